@@ -235,6 +235,23 @@ def allOkLoop (all : List JobRes) : List JobRes → Except Err Bool
 
 def allResultsOk (tests : List JobRes) : Except Err Bool := allOkLoop tests tests
 
+/-! ### the verdict part of `TestRunner.run_suite` -/
+
+def upper (s : String) : String := String.ofList (s.toList.map Char.toUpper)
+
+/-- `summary` of `run_suite` (without the interrupt branch): `"FAIL"` if `not all_results_ok()`, then
+`summary.update(status.upper() for status in status_repo.get_result_set_for_tasks(test_ids))` where
+`taskResults` are the results the status repository holds for the test tasks of this runner -/
+def suiteSummary (tests : List JobRes) (taskResults : List String) : Except Err (List String) :=
+  match allResultsOk tests with
+  | .error e => .error e
+  | .ok ok => .ok ((if ok then [] else [suiteFailWord]) ++ taskResults.map upper)
+
+/-- `avocado.core.job.Job.run_tests`: the exit code gets a failure bit iff `INTERRUPTED`, `FAIL` or
+`ERROR` is in the summary (avocado code, outside /repo: trusted) -/
+def reportedSuccessful (summary : List String) : Bool :=
+  !(summary.contains "INTERRUPTED") && !(summary.contains "FAIL") && !(summary.contains "ERROR")
+
 /-! ### `TestRunner.run_test_node`: uid scheme and result bookkeeping as a state machine -/
 
 /-- one node copy of a class of mutually bridged nodes (one copy per worker); `preName`/`prePfx` are the
@@ -243,7 +260,7 @@ structure Copy where
   name : String
   pfx : String
   preName : String := ""
-  prePfx : String := "0"
+  prePfx : String := prePrefix
   results : List Result := []
 deriving Repr
 
@@ -374,11 +391,15 @@ inductive Obs where
   | failed (e : Err)
 deriving Repr
 
-/-- `run_test_node(copy i)` up to the suspension -/
+/-- `run_test_node(copy i)` up to the suspension.  A copy belongs to one worker and a worker awaits the
+execution it started, so a copy with an execution in flight cannot be started again: that event is not
+enabled (this is an assumption on the environment, not on `run_test_node`, which would derive the
+retry prefix from the temporarily modified `node.prefix`). -/
 def start (s : St) (i : Nat) : St × Obs :=
   match s.copies[i]? with
   | none => (s, .noop)
   | some c =>
+    if s.pending.any (fun e => e.copy == i) then (s, .noop) else
     let k := sharedLen s.copies
     let e : Exec := { copy := i, k := k, name := c.name, uid := uidOf c.pfx k }
     ({ s with copies := updCopy s.copies i (fun c => { c with results := c.results ++ [unknownOf c.name] })
